@@ -512,6 +512,25 @@ def main(argv):
     tier = args.tier
     tcfg = cfg[tier]
     known, fixed = load_known(prop)
+    # every listed known finding is replayed first: it is announced on each
+    # run while it still reproduces (and suppresses only its own signature)
+    known_status = []
+    for k in known:
+        rp = k.get('replay')
+        line = 'KNOWN-FINDING: property=%s %s' % (prop, k.get('what', k.get('signature')))
+        if rp and os.path.exists(os.path.join(VERIF, rp)):
+            plan = json.load(open(os.path.join(VERIF, rp)))
+            binary = plan.get('expect', {}).get('binary') or cfg['binaries'][0]
+            r = exec_plan(cfg, plan, binary)
+            if r['sig'] == k.get('signature'):
+                log(line + ' [signature %s; replay %s reproduces]' % (k['signature'], rp))
+                known_status.append(dict(signature=k['signature'], reproduces=True))
+            else:
+                log('NOTE: known finding %s no longer reproduces from %s (got %r)' % (k.get('signature'), rp, r['sig']))
+                known_status.append(dict(signature=k['signature'], reproduces=False))
+        else:
+            log(line + ' [signature %s]' % k.get('signature'))
+            known_status.append(dict(signature=k.get('signature'), reproduces=None))
     all_results, all_viol, summaries, capped = {}, {}, [], False
     per_binary = []
     for binary in cfg['binaries']:
@@ -562,7 +581,7 @@ def main(argv):
         k = match_known(known, sig)
         if k:
             known_hit.append((sig, k))
-            log('KNOWN-FINDING: property=%s %s [signature %s; replay %s]' % (prop, k.get('what', ''), sig, path))
+            log('(known finding %s met again in this batch: %s)' % (sig, path))
         else:
             reported.append((sig, path, info))
             log('--- violation (run %d, signature %s) ---' % (r, sig))
@@ -629,6 +648,7 @@ def main(argv):
                 'stopped_by_wall_cap': capped,
                 'violations_reported': [dict(signature=s, replay=p) for s, p, _ in reported],
                 'known_findings_hit': [s for s, _ in known_hit],
+                'known_findings_replayed': known_status,
                 'fixed_entries': [e.get('entry') for e in fixed],
                 'exhaustive': False,
             },
